@@ -44,7 +44,7 @@ CHECKS = {
    note="The CRC reference is self-checked against published vectors at start-up. On a used link only the first corrupted frame after valid traffic is judged; what the receiver does with the bytes after a rejected frame is unspecified and not tested."),
  "C07": dict(engine="sim", cat="exploration", design="3/C07",
    technique="runtime monitoring under hostile input: panic hook + rustc overflow checks/debug assertions, transport poll counter (spin), virtual-time and wall-clock watchdogs (subprocess workers), follow-up session and follow-up request as liveness probes",
-   text="Grammar-aware mutations of valid traffic and raw random bytes, server and client roles, MBAP and RTU, all 36 decode levels with a formatting subscriber, random partitions; after the hostile stream the session must end on EOF/shutdown/handle drop, a fresh session on the same handler map must answer, the client handle must still complete requests and honour shutdown; a flood of stale frames must not postpone a request's completion beyond its deadline (bounded progress). Thorough adds a libFuzzer+AddressSanitizer target over the same harness entry point (coverage-guided byte streams, both roles) and a Miri run of the session loop on a sample.",
+   text="Grammar-aware mutations of valid traffic and raw random bytes, server and client roles, MBAP and RTU, all 36 decode levels with a formatting subscriber, random partitions; after the hostile stream the session must end on EOF/shutdown/handle drop, a fresh session on the same handler map must answer, the client handle must still complete requests and honour shutdown; a flood of stale frames must not postpone a request's completion beyond its deadline (bounded progress); a peer that keeps thousands of valid requests readable must not keep the session from seeing a shutdown command or a dropped handle (the scripted transport yields cooperatively like a real socket). Thorough adds a libFuzzer+AddressSanitizer target over the same harness entry point (coverage-guided byte streams, both roles) and a Miri run of the session loop on a sample.",
    note="Panics that the runtime catches inside spawned tasks are reported through the panic hook; a sentinel completing with Shutdown although nobody shut the task down is a violation. A non-yielding loop is reported only after the case fails to finish alone twice with a 10x budget. Multi-session isolation on a real server is in C15."),
  "C10": dict(engine="sim", cat="exploration", design="3/C10",
    technique="runtime monitor: exactly-once completion log keyed by request id + sequential reference of the client semantics giving the allowed result classes, over random event scripts in virtual time",
@@ -52,7 +52,7 @@ CHECKS = {
    note="The outer reconnect loop is composed from hooked primitives in the same order as the production task (harness code); the production task is exercised black-box in C13/C14."),
  "C11": dict(engine="sim", cat="exploration", design="3/C11",
    technique="runtime monitor: unique-payload history checker (every peer reply carries a unique serial) + write-log order / id-arithmetic / one-outstanding checks",
-   text="Sessions of 1-200 queued reads and sessions of 70000 requests crossing the id wrap; peer sends genuine, stale-by-d, future-by-d, duplicate, only-stale, late or no replies and unsolicited frames carrying the next id while idle. A request's result must be the first frame with its id completely delivered while it was outstanding, else a timeout.",
+   text="Sessions of 1-200 queued reads and sessions of 70000 requests crossing the id wrap; peer sends genuine, stale-by-d, future-by-d, duplicate, only-stale, late or no replies and unsolicited frames carrying the next id while idle; set_decode_level / redundant enable commands are interleaved with the requests (they travel through the same queue and must not consume ids). A request's result must be the first frame with its id completely delivered while it was outstanding, else a timeout.",
    note="Lateness is decided from measured delivery instants; exact ties with a deadline are skipped and counted."),
  "C12": dict(engine="sim", cat="exploration", design="3/C12",
    technique="runtime monitor in virtual time: completion instants checked against t_tx+T from the transport log; exhaustive outcome-sequence enumeration for the consecutive-timeout limit",
@@ -60,7 +60,7 @@ CHECKS = {
    note="1 ms timer granularity and exact ties are accepted either way (documented in DESIGN.md 2.5)."),
  "C20": dict(engine="sim", cat="exploration", design="3/C20",
    technique="differential runtime monitor: same script executed at decode level nothing, maximum, random and with a level change injected at every position; full observation records (bytes+virtual timestamps, results+instants, handler log, state, session end) must be equal",
-   text="Server scripts (C01/C17 generators re-partitioned with gaps, level change at every chunk gap incl. mid-frame) and client scripts (1-8 requests with genuine/exception/bad/never/split/stale replies, level change before each request and one millisecond into each outstanding transaction), with a formatting subscriber so that all decode paths execute.",
+   text="Server scripts (C01/C17 generators re-partitioned with gaps, level change at every chunk gap incl. mid-frame) and client scripts (1-8 requests with genuine/exception/bad/never/split/stale replies, level change before each request and one millisecond into each outstanding transaction), with a formatting subscriber so that all decode paths execute; a third of the server scripts run against a slow reader (replies leave in pieces of 5 / 16 / 64 bytes, 300 us apart) so that level changes arrive while a reply is partly written.",
    note="Only the decode-level command itself is excluded from the record."),
 
  "C09": dict(engine="net", cat="fault_enumeration", design="3/C09",
@@ -69,16 +69,16 @@ CHECKS = {
    note="Trusts CPython's ssl module / OpenSSL as the independent peer and the fixture PKI in fixtures/pki (minted by mint.sh). Validity is judged at today's clock only. Two-role certificates are minted by DER surgery (fixtures/pki/mint_extra.py); a role extension that is not a UTF8String is not tested."),
  "C13": dict(engine="net", cat="exploration", design="3/C13",
    technique="online trace automaton on the connection-state listener stream with the listener callback used as a lock-step gate; accept counter, request-result and JoinHandle monitors",
-   text="The real TCP client task runs against a harness-owned listener; at every state notification the task is parked while one user event (enable, disable, shutdown, drop handles, submit) and the environment for the next attempt (refused, accept+close, accept+garbage, accept+silent, served) are injected. Checked: legal transitions, expected successor when nothing is pending, Disabled after disable, no accept while Disabled, no-connection for requests submitted while down, a request handed over at a wait-state notification has completed when Connecting is announced (logical order, no clock), Shutdown once and last, handles report shutdown, task terminates.",
+   text="The real TCP client task runs against a harness-owned listener; at every state notification the task is parked while one user event (enable, disable, shutdown, drop handles, submit) and the environment for the next attempt (refused, accept+close, accept+garbage, accept+silent, served) are injected. Checked: legal transitions, expected successor when nothing is pending, Disabled after disable, no accept while Disabled, no-connection for requests submitted while down, a request handed over at a wait-state notification has completed when Connecting is announced (logical order, no clock), a shutdown queued right behind a disable still takes effect, Shutdown once and last, handles report shutdown, task terminates.",
    note="Wall-clock only as watchdog. A request queued at the Connecting gate may legitimately be served when the connect completes in its first poll (measured and reported). Serial (pty) legs run the PortState automaton on the serial client task (port open failures, shutdown / handle drop) and a port behind a symlink that opens, is disabled (the port must really be released: observed at the pty master), re-enabled, disappears and comes back (requests during the wait fail with no-connection, re-open observed from outside)."),
  "C14": dict(engine="net", cat="exploration", design="3/C14",
    technique="model comparison of the public strategy object over enumerated call sequences (panic = violation) + runtime monitor with a logging wrapper strategy on the real TCP client task (call-log grammar, announced delay == returned value, measured wait >= delay)",
-   text="Strategy object: all (min,max) pairs of a lattice up to Duration::MAX, all sequences over {fail, disconnect, reset} up to length 7 (quick) / 9 (thorough) plus runs of 70/130 failures. Task level: outcome sequences of 2-10 over {refused, accepted then closed, accepted then garbage} with min 20 ms / max 150 ms, with enable/disable/decode-level commands issued during the waits (a command must not shorten or restart the wait); the same monitor on the serial client (open retry on a pty that disappears) and the RTU server task (port retry); and, measured from outside at the pty master, the instant at which a lost port (symlink re-pointed to a second pty) is opened again by the serial client and by the RTU server: never earlier than the delay.",
+   text="Strategy object: all (min,max) pairs of a lattice up to Duration::MAX, all sequences over {fail, disconnect, reset} up to length 7 (quick) / 9 (thorough) plus runs of 70/130 failures. Task level: outcome sequences of 2-10 over {refused, accepted then closed, accepted then garbage} with min 20 ms / max 150 ms, with enable/disable/decode-level commands issued during the waits (a command must not shorten or restart the wait); a quarter of the scripts run the TLS client task against the same plain-TCP peer, where every accepted connection fails inside the handshake and must count as a failed connect (doubling continues, no reset, no after_disconnect); the same monitor on the serial client (open retry on a pty that disappears) and the RTU server task (port retry); and, measured from outside at the pty master, the instant at which a lost port (symlink re-pointed to a second pty) is opened again by the serial client and by the RTU server: never earlier than the delay.",
    note="Pairs with min > max are excluded (statement is contradictory there). Only the lower bound of a wait is a verdict."),
  "C15": dict(engine="net", cat="exploration", design="3/C15",
    technique="black-box history checker: alive/closed vector of real sockets after every event compared with an ordered-list model of the session tracker",
-   text="Histories of 5-30 events over {connect, client close, request, malformed header, set decode level, shutdown, drop handle} with max_sessions 0..4 against the real TCP server task; sentinel requests with unique transaction ids decide alive, EOF/reset decides closed. TLS leg: histories over {valid TLS client connects, connections that never become sessions (plaintext, garbage, connect-and-close, ClientHello fragment), client leaves, probe all} against the real TLS server task with limits 1-3; session-holding peers are rodbus TLS clients with a state listener.",
-   note="A discrepancy is reported only if it reproduces with a 10x longer grace for the server to notice closed peers. Connections that stay inside a TLS handshake forever are out of scope; whether a connection that arrives at the limit and then fails its handshake evicts the oldest session is accepted either way (the model follows what is observed)."),
+   text="Histories of 5-30 events over {connect, client close, request, malformed header, set decode level, shutdown, drop handle} with max_sessions 0..4 against the real TCP server task; sentinel requests with unique transaction ids decide alive, EOF/reset decides closed. TLS leg: histories over {valid TLS client connects, connections that never become sessions (plaintext, garbage, connect-and-close, ClientHello fragment), connections that stay silent inside the handshake, client leaves, probe all} against the real TLS server task with limits 1-3; session-holding peers are rodbus TLS clients with a state listener.",
+   note="A discrepancy is reported only if it reproduces with a 10x longer grace for the server to notice closed peers. A connection that stays inside the TLS handshake holds a place like any accepted connection and must not disturb anybody else (new connections admitted, live sessions served, server task ends on shutdown); that its own socket is only dropped when the handshake ends - not at eviction or shutdown - is recorded as an observation, not judged. Whether a connection that arrives at the limit and then fails its handshake evicts the oldest session is accepted either way (the model follows what is observed)."),
  "C16": dict(engine="net", cat="exploration", design="3/C16",
    technique="black-box monitor: connections from chosen loopback source addresses to real servers (TCP, TLS, TLS+authz; Rust API and C ABI) judged by an independent matcher; three-valued oracle over enumerated wildcard strings",
    text="Filters: any, exact v4/v6, sets of 1-5 mixed addresses, the unspecified / broadcast / IPv4-mapped addresses as ordinary filter values (fixed first cases of every campaign and constructor), wildcards with literal/'*' fields on a boundary lattice; sources 127.a.b.c and ::1. Served = sentinel reply / completed handshake and Modbus reply through an independent TLS peer; refused = EOF before any byte. Parser: every string over a 12-symbol alphabet up to length 5 (quick) / 7 (thorough) plus grammar-generated strings.",
@@ -86,8 +86,8 @@ CHECKS = {
 
  "C18": dict(engine="ffi", cat="exploration", design="3/C18",
    technique="differential runtime monitor: the same scenario through the extern C surface and through the Rust API, outcomes mapped through an independent name table; callback-lifecycle counters (completion exactly once, on_destroy exactly once); AddressSanitizer / Miri legs in the thorough tier",
-   text="All eight client operations x outcomes (genuine, 9 standard + all 256 raw exception codes, bad response, bad framing, close, silence, no listener, queue full, handle destroyed, runtime destroyed) against a scripted loopback peer; request bytes vs the reference encoder; measured timeouts; a C write handler answering success / each standard exception / raw codes for all four write functions observed by a raw client; 36 decode levels through both APIs with the C logger installed; client and port state listeners; configuration pass-through (max_queued_requests; TLS client expected name / wildcard switch / minimum version / certificate mode against an independent TLS server and against the Rust constructor; TLS server minimum version and certificate mode; retry strategy delays measured; serial flow control / stop bits read back from the pty; max_sessions 2 / 256 / 258 through each of the three TCP/TLS server constructors); a C authorization handler with one callback per function and a per-function answer (four masks): which callback is consulted, its arguments and role, the client's result, the write-handler calls.",
-   note="The harness is Rust linking the rodbus-ffi rlib and calling only generated extern \"C\" functions with extern \"C\" callbacks (no C compiler involved). Completion callbacks for calls rejected for a parameter error before queueing are don't-care; on_destroy is not. A pty forces 8 data bits / no parity and has no baud rate, so only flow control and stop bits of the serial settings are observable."),
+   text="All eight client operations x outcomes (genuine, 9 standard + all 256 raw exception codes, bad response, bad framing, close, silence, no listener, queue full, handle destroyed, runtime destroyed) against a scripted loopback peer; request bytes vs the reference encoder; measured timeouts; a C write handler answering success / each standard exception / raw codes for all four write functions observed by a raw client; 36 decode levels through both APIs with the C logger installed; client and port state listeners; calls the library must refuse (count 0, over-limit and overflowing ranges and lists, null channel: nothing transmitted, a failure reported, completion exactly once); the same list object used for several writes; five kinds of bad response; configuration pass-through (max_queued_requests; TLS client expected name / wildcard switch / minimum version / certificate mode against an independent TLS server and against the Rust constructor; TLS server minimum version and certificate mode; retry strategy delays measured; serial flow control / stop bits read back from the pty; max_sessions 2 / 256 / 258 through each of the three TCP/TLS server constructors); a C authorization handler with one callback per function and a per-function answer (four masks): which callback is consulted, its arguments and role, the client's result, the write-handler calls.",
+   note="The harness is Rust linking the rodbus-ffi rlib and calling only generated extern \"C\" functions with extern \"C\" callbacks (no C compiler involved). Every completion callback must fire exactly once, also for calls that are refused (this was don't-care until round 7; the unchanged tree violated it - defect D10, fixed). A pty forces 8 data bits / no parity and has no baud rate, so only flow control and stop bits of the serial settings are observable."),
  "C19": dict(engine="ffi", cat="exploration", design="3/C19",
    technique="model comparison (HashMap reference) of every rodbus_database_* return value and of raw-socket reads; torn-read detector under multi-thread stress with injected yields inside the transaction callback, overlap counter",
    text="Random add/update/delete/get sequences over four point types and six indices inside configure and transaction callbacks, interleaved with wire reads (exception 02 when a point is absent); stress with 3 writer threads setting 50 registers to one fresh value per transaction and 6 raw clients reading all 50 in one request, counting reads that overlapped an open transaction.",
